@@ -18,7 +18,9 @@ ASSUMPTIONS = ["user callables answer as a function of the site (A-oracle)"]
 
 AW = {"T": 10, "F": 3, "R": 0.5, "BR": 0.5, "CT": 0.5}
 NEIGHBOURS = [{"from": "C04", "limit": 1500, "why": "snapshots are inherited together with postconditions by the real metaclass"},
-              {"from": "C17", "tags": ["late"], "limit": 600, "why": "duplicate snapshot names are refused at definition time also for late decorations of class members"}]
+              {"from": "C17", "tags": ["late"], "limit": 600, "why": "duplicate snapshot names are refused at definition time also for late decorations of class members"},
+              {"from": "C05", "limit": 1200, "why": "captures receive the values of the call, whatever the snapshots and parameters are called"},
+              {"from": "C09", "limit": 600, "why": "no snapshot is captured when a precondition fails, whatever its error object is"}]
 
 
 run_directed = directed.run
